@@ -1,12 +1,17 @@
 /-
 C07 — model of nipy/modalities/fmri/hemodynamic_models.py
-(`_sample_condition`, truncated convolution, `_resample_regressor` (linear),
-`_orthogonalize`, `_regressor_names`) and of design_matrix.py
-(`_poly_drift`, drift naming, column assembly of `make_dmtx`).
+(the high-resolution grid `_sample_condition` builds from the frame times, the oversampling and
+`min_onset` — `trOf`, `nPre`, `hrGrid`; the impulses / cumulative sum of `_sample_condition`;
+truncated convolution; `_resample_regressor` (linear); `_orthogonalize`; the fir kernels of
+`_hrf_kernel`; `compute_regressor` end to end from the frame times; `_regressor_names`) and of
+design_matrix.py (`_poly_drift`, drift naming, column assembly of `make_dmtx`).
+Further model files: `C07Csv` (CSV text layer), `C07Par` (paradigms and their CSV files),
+`C07Dm` (`make_dmtx` arguments, refusals, names).
 
-Exact rational arithmetic; the high-resolution time grid and the haemodynamic
-kernels (gamma densities) are *inputs* of the model: the correspondence check
-passes the very floats the implementation computed, as exact dyadic rationals.
+Exact rational arithmetic.  The haemodynamic kernels (gamma densities) are *inputs* of the model:
+the correspondence check passes the very floats the implementation computed, as exact dyadic
+rationals.  The legacy line kinds (`sample`, `compute`, `regressor`) also take the grid as an
+input; they serve the frame grids whose float arithmetic is not exact (decimal TR / start).
 -/
 import NipyVerif.Model.Common
 namespace NipyVerif.C07
@@ -119,6 +124,81 @@ def polyDrift (order : Nat) (frames : List Rat) (tmax : Rat) : List (List Rat) :
   | [] => []
   | c0 :: rest => rest ++ [c0]
 
+/-! ### The high-resolution grid of `_sample_condition` (now inside the model)
+
+```
+n = frametimes.size;  t_min, t_max = float(frametimes.min()), float(frametimes.max())
+tr = (t_max - t_min) / (n - 1);  dt = tr / oversampling
+n_pre = int(np.ceil(-min_onset / dt))
+hr_frametimes = np.linspace(t_min - n_pre * dt, t_max + tr, n_pre + n * oversampling + 1)
+```
+-/
+
+/-- the regular grid `t0, t0+dt, …` with `n` points -/
+def uniformGrid (n : Nat) (t0 dt : Rat) : List Rat :=
+  (List.range n).map (fun (j : Nat) => t0 + dt * (j : Rat))
+
+def listMin (l : List Rat) : Rat := l.foldl min (l.headD 0)
+def listMax (l : List Rat) : Rat := l.foldl max (l.headD 0)
+
+/-- `np.linspace(start, stop, num)` (end point included; `num = 1` gives `[start]`). -/
+def linspace (start stop : Rat) (num : Nat) : List Rat :=
+  (List.range num).map (fun (i : Nat) => start + (stop - start) / ((num : Rat) - 1) * (i : Rat))
+
+/-- the repetition time both `_sample_condition` and `compute_regressor` derive from the frame
+    times: `(max - min) / (n - 1)` — *not* `max / (n - 1)`. -/
+def trOf (fr : List Rat) : Rat := (listMax fr - listMin fr) / ((fr.length : Rat) - 1)
+
+/-- number of high-resolution samples before the first frame: `ceil(-min_onset / dt)` -/
+def nPre (fr : List Rat) (os : Nat) (mo : Rat) : Int := Rat.ceil (-mo / (trOf fr / (os : Rat)))
+
+/-- number of points of the high-resolution grid (may be negative: `linspace` refuses) -/
+def nHr (fr : List Rat) (os : Nat) (mo : Rat) : Int := nPre fr os mo + (fr.length * os : Nat) + 1
+
+/-- the high-resolution frame times; the refusals are those of the Python arithmetic
+    (`(t_max - t_min) / (n - 1)` with one frame, `-min_onset / dt` with `dt = 0`, `linspace`
+    with a negative number of samples). -/
+def hrGrid (fr : List Rat) (os : Nat) (mo : Rat) : Except String (List Rat) :=
+  if fr.length = 0 then .error "error:valueError"       -- `.min()` of an empty array
+  else if fr.length = 1 then .error "error:zeroDivision"
+  else
+    let tr := trOf fr
+    let dt := tr / (os : Rat)
+    if dt = 0 then .error "error:zeroDivision"
+    else
+      let np := nPre fr os mo
+      let num := nHr fr os mo
+      if num < 0 then .error "error:valueError"
+      else .ok (linspace (listMin fr - (np : Rat) * dt) (listMax fr + tr) num.toNat)
+
+/-- `_sample_condition(exp_condition, frametimes, oversampling, min_onset)`:
+    `(regressor, hr_frametimes)`. -/
+def sampleFrames (fr : List Rat) (os : Nat) (mo : Rat) (evs : List Event) :
+    Except String (List Rat × List Rat) :=
+  match hrGrid fr os mo with
+  | .error e => .error e
+  | .ok g =>
+      if g.length = 0 ∧ evs.length ≠ 0 then .error "error:indexError"   -- `regressor[-1]` of an empty array
+      else .ok (sampleCondition g evs, g)
+
+/-- `_hrf_kernel('fir', …)`: `hstack((zeros(f * oversampling), ones(oversampling)))` -/
+def firKernel (os d : Nat) : List Rat := List.replicate (d * os) 0 ++ List.replicate os 1
+
+/-- steps 1, 3, 4 (and 5 when `orth`) of `compute_regressor`, from the frame times: sample on the
+    model's own grid, convolve with each kernel, resample at the frame times, orthogonalise. -/
+def computeRegressor (fr : List Rat) (os : Nat) (mo : Rat) (evs : List Event)
+    (kernels : List (List Rat)) (orth : Bool) : Except String (List (List Rat)) :=
+  match sampleFrames fr os mo evs with
+  | .error e => .error e
+  | .ok (hr, g) =>
+      match kernels.mapM (fun h => resample g (convTrunc hr h) fr) with
+      | some cols => .ok (if orth then orthogonalize cols else cols)
+      | none => .error "error:valueError"     -- interp1d: a frame time outside the grid
+
+/-- `_poly_drift(order, frametimes)`: the times are normalised by `abs(frametimes).max()` -/
+def polyDriftFrames (order : Nat) (frames : List Rat) : List (List Rat) :=
+  polyDrift order frames (listMax (frames.map (fun t => if t < 0 then -t else t)))
+
 /-! ### Names -/
 
 inductive Hrf | canonical | canonicalDeriv | spm | spmTime | spmTimeDisp | fir
@@ -197,6 +277,41 @@ def run : Toks → String
           | some cols => " | ".intercalate ((if o then orthogonalize cols else cols).map fmtRats)
           | none => "error"
       | none => "bad-op"
+  | "tr" :: rest =>
+      match runP (pList pRat) rest with
+      | some f =>
+          if f.length = 0 then "error:valueError"
+          else if f.length = 1 then "error:zeroDivision" else fmtRat (trOf f)
+      | none => "bad-op"
+  | "hrgrid" :: rest =>
+      match runP (do let f ← pList pRat; let o ← pNat; let m ← pRat; pure (f, o, m)) rest with
+      | some (f, o, m) => match hrGrid f o m with
+          | .ok g => fmtRats g
+          | .error e => e
+      | none => "bad-op"
+  | "sample2" :: rest =>
+      match runP (do let f ← pList pRat; let o ← pNat; let m ← pRat; let e ← pList pEvent
+                     pure (f, o, m, e)) rest with
+      | some (f, o, m, e) => match sampleFrames f o m e with
+          | .ok (r, g) => fmtRats r ++ " | " ++ fmtRats g
+          | .error e => e
+      | none => "bad-op"
+  | "compute2" :: rest =>
+      -- frametimes, oversampling, min_onset, events, kernels, orthogonalise?
+      match runP (do let f ← pList pRat; let o ← pNat; let m ← pRat; let e ← pList pEvent
+                     let hs ← pList (pList pRat); let orth ← pBool; pure (f, o, m, e, hs, orth)) rest with
+      | some (f, o, m, e, hs, orth) => match computeRegressor f o m e hs orth with
+          | .ok cols => " | ".intercalate (cols.map fmtRats)
+          | .error e => e
+      | none => "bad-op"
+  | "fir" :: rest =>
+      -- frametimes, oversampling, min_onset, events, delays: the kernels are the model's own
+      match runP (do let f ← pList pRat; let o ← pNat; let m ← pRat; let e ← pList pEvent
+                     let ds ← pList pNat; pure (f, o, m, e, ds)) rest with
+      | some (f, o, m, e, ds) => match computeRegressor f o m e (ds.map (firKernel o)) false with
+          | .ok cols => " | ".intercalate (cols.map fmtRats)
+          | .error e => e
+      | none => "bad-op"
   | "orth" :: rest =>
       match runP (pList (pList pRat)) rest with
       | some cols => " | ".intercalate ((orthogonalize cols).map fmtRats)
@@ -204,6 +319,10 @@ def run : Toks → String
   | "polydrift" :: rest =>
       match runP (do let o ← pNat; let f ← pList pRat; let tm ← pRat; pure (o, f, tm)) rest with
       | some (o, f, tm) => " | ".intercalate ((polyDrift o f tm).map fmtRats)
+      | none => "bad-op"
+  | "polydrift2" :: rest =>
+      match runP (do let o ← pNat; let f ← pList pRat; pure (o, f)) rest with
+      | some (o, f) => " | ".intercalate ((polyDriftFrames o f).map fmtRats)
       | none => "bad-op"
   | "names" :: hrf :: rest =>
       match hrfOfString hrf, runP (do let c ← pList pTok; let d ← pList pNat
